@@ -6,6 +6,8 @@ import BSEGen.Formats
 import BSEModel.NwchemInst
 import BSEProofs.Lemmas.NwchemRT
 import BSEProofs.Lemmas.NwchemEcp
+import BSEModel.G94Inst
+import BSEProofs.Lemmas.G94RT
 /-! # C03 — reading back what the library wrote never silently changes the basis
 
 What is proved: (1) the number tables survive print → read token for token (only the exponent marker
@@ -281,6 +283,74 @@ example :
                                   { am := some [0], rexp := ["2"], gexp := ["1.5"], coef := ["3.0"] },
                                   { am := some [1], rexp := ["2"], gexp := ["1.1"], coef := ["2.0"] }])] := by
   decide +kernel
+
+/-! ## (6) Gaussian94: one element's electron block, written then read -/
+
+open BSE.G94 BSE.Notation
+
+open BSE.Nwchem in
+theorem g94_letter (l : Nat) (hl : l < 26) :
+    ∃ c, amChar true l = some c ∧ amInt true c.toUpper = some l ∧ c.toUpper.isAlpha = true := by
+  have h : ∀ l ∈ List.range 26, ∃ c, amChar true l = some c ∧ amInt true c.toUpper = some l ∧ c.toUpper.isAlpha = true := by
+    decide +kernel
+  exact h l (List.mem_range.2 hl)
+
+open BSE.Nwchem in
+/-- the hij letters the Gaussian writer prints are read back to the same momenta (fused shells included) -/
+theorem g94_am_roundtrip {ν : Type} (isNum : ν → Bool) (am : List Nat) (hne : am ≠ []) (hl : ∀ l ∈ am, l < 26) :
+    (realGTables isNum).amOf ((realGTables isNum).amStr am) = some am
+      ∧ isAlphaStr ((realGTables isNum).amStr am) = true := by
+  show amOfHij ((am.filterMap (amChar true)).map Char.toUpper) = some am
+    ∧ isAlphaStr ((am.filterMap (amChar true)).map Char.toUpper) = true
+  have key : amOfHij ((am.filterMap (amChar true)).map Char.toUpper) = some am
+      ∧ ((am.filterMap (amChar true)).map Char.toUpper).all Char.isAlpha = true
+      ∧ ((am.filterMap (amChar true)).map Char.toUpper).length = am.length := by
+    clear hne
+    induction am with
+    | nil => simp [amOfHij]
+    | cons l ls ih =>
+      obtain ⟨c, hc, hi, ha⟩ := g94_letter l (hl l (by simp))
+      obtain ⟨h1, h2, h3⟩ := ih (fun l' hl' => hl l' (by simp [hl']))
+      simp only [List.filterMap_cons, hc, List.map_cons, amOfHij, hi, h1, List.all_cons, ha, h2, Bool.and_self,
+        List.length_cons, h3, and_self]
+  refine ⟨key.1, ?_⟩
+  unfold isAlphaStr
+  have : ((am.filterMap (amChar true)).map Char.toUpper).isEmpty = false := by
+    cases h0 : (am.filterMap (amChar true)).map Char.toUpper with
+    | nil =>
+      have := key.2.2
+      rw [h0] at this
+      exact absurd (List.eq_nil_of_length_eq_zero this.symm) hne
+    | cons _ _ => rfl
+  simp [this, key.2.1]
+
+/-- the primitive count printed on a shell line parses back, for every shell with fewer than 400 primitives -/
+theorem g94_count_roundtrip : ∀ n ∈ List.range 400, natOfStr (toString n).toList = some n := by decide +kernel
+
+theorem g94_scale_ok {ν : Type} (isNum : ν → Bool) : ScaleOK (realGTables isNum) := by
+  have h1 : BSE.ReadWrite.isFloatTok "1.00".toList = true := by decide +kernel
+  have h2 : ((BSE.parseNumChars true "1.00".toList).getD 1 == 0) = false := by decide +kernel
+  have h3 : ((BSE.parseNumChars true "1.00".toList).getD 0 * (BSE.parseNumChars true "1.00".toList).getD 0 == 1) = true := by
+    decide +kernel
+  exact ⟨h1, h2, h3⟩
+
+open BSE.Nwchem in
+/-- **Gaussian94, one element's electron block: read(write(shells)) = shells**, over the library's tables: every shell in
+order, momenta / exponents / coefficient columns token for token, for every element 1..118 and every list of rectangular
+shells of number tokens with `l < 26`, as many contractions as fused momenta, fewer than 400 primitives -/
+theorem g94_electron_roundtrip {ν : Type} (isNum : ν → Bool) (z : Nat) (shells : List (EShell ν))
+    (hz : z ∈ List.range' 1 118)
+    (hsh : ∀ sh ∈ shells, 0 < sh.exps.length ∧ sh.exps.length < 400 ∧ sh.coefs ≠ [] ∧ Rect sh.exps.length sh.coefs
+        ∧ (∀ x ∈ sh.exps, isNum x = true) ∧ (∀ c ∈ sh.coefs, ∀ x ∈ c, isNum x = true)
+        ∧ sh.am ≠ [] ∧ (∀ l ∈ sh.am, l < 26) ∧ sh.coefs.length = sh.am.length) :
+    parseElectron (realGTables isNum) (electronBlock (realGTables isNum) z shells)
+      = .ok (z, shells.map (toR (realGTables isNum).toTables true)) := by
+  have hsym : ∀ z ∈ List.range' 1 118, zFromSym ((symFromZNorm z).getD []) = some z := by decide +kernel
+  apply parseElectron_write (realGTables isNum) (g94_scale_ok isNum) z shells (hsym z hz)
+  intro sh hs
+  obtain ⟨h1, h1', h2, h3, h4, h5, h6, h7, h8⟩ := hsh sh hs
+  have ham := g94_am_roundtrip isNum sh.am h6 h7
+  exact ⟨⟨h1, h2, h3, ⟨h4, h5⟩, ham, fun _ => h8⟩, h8, g94_count_roundtrip _ (List.mem_range.2 h1'), ham.2⟩
 
 example : tokens (replaceD (convExp true (rowLine [(7, "1.5e+01".toList), (20, "-2.0E-01".toList)] [])))
     = ["1.5E+01".toList, "-2.0E-01".toList] := by decide +kernel
